@@ -55,10 +55,8 @@ Definition guard_class (k : scase) : N :=
   let rc := lk_compiles (k_compiles k) in
   let s := k_schema k in
   if negb (g_empty s) then 1
-  else if negb (g_excl s) then 2
   else if negb (g_uniq (k_value k)) then 3
   else if negb (g_small s) then 4
-  else if negb (g_div s (k_value k)) then 5
   else if negb (g_rw rc (lk_match (k_matches k)) (lk_fmt (k_formats k)) (md_of (with_mode (k_mode k) st_default)) s) then 7
   else 0.
 
@@ -98,8 +96,7 @@ Definition judge_C12 (k : scase) : N :=
                    list_eqb perr_eqb (g_multi_errs k) (proj_out (m_multi k)) in
   (* the guards whose failure makes modes differ (a panic reached in one mode only) *)
   let rc := lk_compiles (k_compiles k) in
-  let gc : N := if negb (g_excl (k_schema k)) then 2%N
-                else if negb (g_div (k_schema k) (k_value k)) then 5%N else 0%N in
+  let gc : N := 0%N in
   if rel then (if same && errs_same then J_OK else J_DRIFT)
   else if same && negb (N.eqb gc 0) then J_KNOWN gc
   else J_VIOL.
